@@ -194,7 +194,8 @@ def scan_forbidden(files):
         txt = open(f).read()
         txt = re.sub(r"/-.*?-/", lambda m: "\n" * m.group(0).count("\n"), txt, flags=re.S)
         for i, line in enumerate(txt.split("\n"), 1):
-            code = line.split("--")[0]
+            # string literals are data (generated tables quote Rust text), not Lean code
+            code = re.sub(r'"(?:[^"\\]|\\.)*"', '""', line).split("--")[0]
             if pat.search(code):
                 bad.append("%s:%d: %s" % (os.path.relpath(f, VERIF), i, line.strip()))
     return bad
